@@ -5,7 +5,12 @@ Tie (H), integer-exact core: random admissible histories (<= 25 ops + final cycl
 sensitivity, reset} on REAL networks of user modules (block-matrix, square, product, a caching user module, keep_alloc
 signals, slices); the states and sensitivities of ALL signals after the history and after the final
 reset/response/seed/sensitivity cycle are compared inside Coq with `run` of Model/Hist.v (exact, None vs zero array
-distinguished).
+distinguished).  Half of the networks are put together by a CONSTRUCTION HISTORY (single append() calls in depth-first /
+breadth-first / random / post order: inner networks placed empty or partly filled and extended afterwards by modules and
+by further networks, detached networks filled before they are placed) with evaluations of the partially built outer network
+in between; Coq replays them with run_built of Model/HistBuild.v (every op acts on the modules the outer network reaches at
+that moment).  Oracle: after reset() no signal found by WALKING THE MEMBER TREE holds a non-zero sensitivity; final cycle =
+network constructed in one go.
 Tie (H), memory bookkeeping: the two library memories that can hold STALE factorisations -- SolverDenseCholesky with its LDL
 fallback (success flag, U, backup factorisation) and the per-mode adjoint solvers of the sparse EigenSolve (created and
 refactorised inside _sensitivity) -- are modelled in Hist.v; the implementation is run on deliberate and random sequences
@@ -550,6 +555,14 @@ def run(ctx):
                 'reset} followed by the final cycle reset; [set]; response; [seeds]; [sensitivity]; two observations (after the '
                 'history, after the cycle) of ALL states and sensitivities are compared with the Coq model; distinct by full case. '
                 'A case is non-trivial when the history contains at least one response and one sensitivity or reset. '
+                'construction: with probability 1/2 (and for the first 120 / 900 cases of a run, kinds in turn; corpus/C03/'
+                'construction.json) the network is put together by single append() calls -- member tree with at least one inner '
+                'network, up to 3 deep; order dfs | bfs | random (detached networks are filled before they are placed) | post; after '
+                'an append with probability 0.45 (0.9: *-evaluated, 0.25: post) the partially built outer network is evaluated: '
+                'response; seeds; sensitivity without reset, or 1-7 random ops (no response while the reached modules are not '
+                'closed under dependencies); then the history, with probability 0.6 followed by two full cycles response; seeds on '
+                'the directly held signals; sensitivity; reset; three observations (construction complete, after the history, '
+                'after the cycle). '
                 'memory bookkeeping: sequences of 1-8 Hermitian matrices with positive diagonal, each definite or indefinite '
                 '(deliberate patterns first, e.g. definite-indefinite-definite; real/complex; through the solver object and through '
                 'LinSolve), and histories of a sparse EigenSolve (standard/generalized, 3 modes) of responses and passes with '
@@ -581,6 +594,12 @@ def run(ctx):
                         'change within the stress histories',
                         'modules are shape-correct and their adjoint is linear in the seed (zero seeds give zero results): '
                         'hypothesis h_shaped (C01/C04), proved for the test modules',
+                        'construction histories: the theorems run a history on the FINAL flat module list; that the behaviour of a '
+                        'constructed network is a function of its member tree (not of the order of the append calls or of the '
+                        'gathered sig_in / sig_out lists) is C02 (Model/NetBuild.v); histories that evaluate partially built '
+                        'networks are covered by the correspondence with run_built (Model/HistBuild.v) and by the oracle, the '
+                        'theorems C03_construction_* state only: no evaluation in between = flat model, last segment = ordinary '
+                        'history, unreached module inert for reset()',
                         'seeds are placed on signals a module holds directly (not only through slices); sensitivity() is called '
                         'directly after response() (the protocol of the property)',
                         'exempt, as documented: Scaling (objective mode), damped AggScaling, iteration counters of writers']
